@@ -4,7 +4,9 @@ import (
 	"context"
 	"errors"
 	"fmt"
+	"os"
 	"runtime"
+	"runtime/pprof"
 	"strings"
 	gosync "sync"
 	"sync/atomic"
@@ -518,17 +520,28 @@ func (d *detWrap) relay(realSub, h *reorgdetector.Subscription) {
 		case <-ctx.Done():
 			return
 		}
+		// from here on the detector holds the subscriber's tracked list locked until it is acknowledged: when the node is
+		// stopped in between, the dead detector is released so that a driver call waiting for that list can return
+		release := func() {
+			select {
+			case realSub.ReorgProcessed <- true:
+			case <-time.After(2 * time.Second):
+			}
+		}
 		select {
 		case h.ReorgedBlock <- m:
 		case <-ctx.Done():
+			release()
 			return
 		}
 		select {
 		case <-h.ReorgProcessed:
 		case <-ctx.Done():
+			release()
 			return
 		}
 		if d.n.e.gated(ctx, "rd", "acked", "ack", nop) != nil {
+			release()
 			return
 		}
 		select {
@@ -683,6 +696,9 @@ func (n *node) stop(timeout time.Duration) error {
 	select {
 	case <-n.syncDone:
 	case <-time.After(timeout):
+		if os.Getenv("VERIF_DEBUG_STACKS") != "" {
+			_ = pprof.Lookup("goroutine").WriteTo(os.Stderr, 2)
+		}
 		return errors.New("Sync did not return after cancellation")
 	}
 	n.mu.Lock()
